@@ -298,13 +298,20 @@ def step (toks : List String) : String :=
       | some g => "OK " ++ hex g
     | _, _, _, _, _ => "bad-op"
   | ["REQGRT", hl, method, target, hs, body] =>
-    match optNat hl, unhex method, unhex target, parseHeaders hs, unhex body with
-    | some hl, some m, some t, some hs, some body =>
+    -- `hl` alone: header line limit, no other limit; `rl,hl,mx`: the three limits of the parsing Request (spelled as in REQ)
+    let dc := defaultCfg true ⟨true⟩
+    let cfg? : Option ReqCfg := match hl.splitOn "," with
+      | [h] => (optNat h).map fun h => { rl := none, hl := h, max := none, ov := true, tree := ⟨true⟩ }
+      | [a, b, c] => match optLim dc.rl a, optLim dc.hl b, optLim dc.max c with
+        | some a, some b, some c => some { rl := a, hl := b, max := c, ov := true, tree := ⟨true⟩ }
+        | _, _, _ => none
+      | _ => none
+    match cfg?, unhex method, unhex target, parseHeaders hs, unhex body with
+    | some cfg, some m, some t, some hs, some body =>
       if !validUtf8 m || !validUtf8 t then "bad-op" else
       match Rhymuri.parse t with
       | none => "BADURI"
       | some uri =>
-        let cfg : ReqCfg := { rl := none, hl := hl, max := none, ov := true, tree := ⟨true⟩ }
         let st : ReqState rhymuriImpl := { phase := .requestLine, totalBytes := 0, method := m, target := uri, headers := hs, body := body }
         let shown := "V t=" ++ hex (Rhymuri.display uri) ++ " u=" ++ uriStruct uri
         match Request.generate rhymuriImpl cfg st with
